@@ -285,6 +285,30 @@ def rule_shaving_loop(ctx: Ctx, prog: Program) -> None:
                               "after a probe that removed nothing neither the probed bound nor the domain cursor moves: the same probe repeats forever")
         else:
             ctx.ok("R-SHAVE", "a successful probe removed a value (finite domains bound the number of such iterations)", nontrivial=False)
+            # a successful shave must be followed by a propagation pass, and that pass is the first thing the NEXT iteration does: the loop
+            # must therefore go round again -- its test must hold in the state the shaving iteration ends in.  (Contract: the probed domain,
+            # an element of decision_domains, is a valid shared-domain index, i.e. smaller than the number of shared domains.)
+            fi2 = Interp(prog, no_inline={"bound_consistency_algorithm": None, "shave_bound": None, "first_not_instantiated_var_heuristic": []})
+            st_end = s.fork()
+            vh = calls_named(bp.events, "first_not_instantiated_var_heuristic")
+            if vh:
+                d_atom = _call_result(bp.events, vh[-1])
+                if d_atom is not None:
+                    stack = role_param(prog, fn, "shr_domains_stack")
+                    st_end.facts.add(cmp_cond("<", d_atom, Aff.atom(("len", stack, (K(0),)))))
+                    st_end.facts.add(cmp_cond(">=", d_atom, ZERO))
+            fi2.cur_fn.append(fn)
+            try:
+                outs = fi2.branch(loop.node.test, st_end, loop.node)
+            finally:
+                fi2.cur_fn.pop()
+            if [t for _, t in outs] == [True]:
+                ctx.ok("R-SHAVE", "after a successful shave the loop goes round again (so the closing propagation pass is run)")
+            else:
+                ctx.violation("R-SHAVE", fn.path, fn.name, "shave-then-exit", f"{fn.path}:{loop.node.lineno}",
+                              "the iteration in which a bound was shaved can be the last one (the loop test may fail right after it): the algorithm then "
+                              "returns PROBLEM_UNBOUND without the propagation pass that must follow a shave -- watchers of the shaved bound stay queued and "
+                              "the domains handed back are not bound consistent")
     ctx.floor("R-SHAVE:iterations-going-round", n_round, 2)
     for r in res:
         if r.outcome == "return":
